@@ -15,7 +15,8 @@ What is true and proved at full strength
   ≤ 3·lines map operations, ≤ 9·bytes hashed, ≤ 4·bytes copied (the pending-FNDA map costs one
   operation per FN and at most two per FNDA: linear in the number of functions); files + line +
   function + branch entries ≤ lines; all names together ≤ 3·bytes; counts < 2^64, keys < 2^32.
-* gcov text: everything linear, including the branch vectors (one slot per `branch:` line).
+* gcov text: everything linear, including the branch vectors (one slot per `branch:` line); names
+  ≤ 3·bytes (lossy decoding).
 * gcov JSON: result (entries + slots + name bytes) ≤ 2 · size of the value tree.
 * JaCoCo: one read per event, ≤ 2 attribute passes per element, entries ≤ 4·events.
 
@@ -167,10 +168,11 @@ theorem C14_gcovtext_cost_models_agree (a : Acc) (l : Bytes) :
 
 /-- **Steps.** Every byte is handed over by `read_until` at most once (exactly once when the
 reader returns `Ok`); the loop runs at most once per line (`lfs bs` = number of LF bytes); per line
-at most one map operation and one `Vec<bool>` push; names are copied out of the bytes read. -/
+at most one map operation and one `Vec<bool>` push; names are copied out of the lossily decoded
+line (since /repo 7f9b2b3), at most three bytes per byte read. -/
 theorem C14_gcovtext_steps (bs : Bytes) :
     (cost bs).reads ≤ bs.length ∧ (cost bs).lines ≤ lfs bs + 1 ∧ (cost bs).mapOps ≤ (cost bs).lines ∧
-    (cost bs).pushed ≤ (cost bs).lines ∧ (cost bs).copied ≤ (cost bs).reads ∧
+    (cost bs).pushed ≤ (cost bs).lines ∧ (cost bs).copied ≤ 3 * (cost bs).reads ∧
     ∀ rs, Text.parse bs = .ok rs → (cost bs).reads = bs.length := by
   have h := costLines_bounds (.run {}) (splitLines bs)
   have h1 := sumLens_splitLines bs
@@ -182,9 +184,10 @@ theorem C14_gcovtext_steps (bs : Bytes) :
   unfold cost; omega
 
 /-- **Size: everything is linear, branch vectors included** (full strength, no guard): files + map
-entries ≤ lines, `Vec<bool>` slots ≤ lines (one per `branch:` record), name bytes ≤ input bytes. -/
+entries ≤ lines, `Vec<bool>` slots ≤ lines (one per `branch:` record), name bytes ≤ 3 · input bytes
+(`from_utf8_lossy` turns one bad byte into three). -/
 theorem C14_gcovtext_result_linear (bs : Bytes) (rs : List (Bytes × Cov)) (h : Text.parse bs = .ok rs) :
-    rs.length + resEntries rs ≤ lfs bs + 1 ∧ resSlots rs ≤ lfs bs + 1 ∧ resNameBytes rs ≤ bs.length := by
+    rs.length + resEntries rs ≤ lfs bs + 1 ∧ resSlots rs ≤ lfs bs + 1 ∧ resNameBytes rs ≤ 3 * bs.length := by
   obtain ⟨a', hr, h1, h2, h3⟩ := parse_ok h
   have h4 := runLines_run {} a' _ hr
   have h5 := costLines_bounds (.run {}) (splitLines bs)
